@@ -84,11 +84,55 @@ C05V(r) ==
     <<"membership-half-open-first-phrase", \A k \in DOMAIN ob : ob[k].sp = SpOf(sp, ob[k].t)>>
   >>)
 
+(***************************** C08 *****************************************)
+\* r.kind = "B":  r.nd digits of n, r.m / r.e the observed tempo as m * 2^e (m the 53-bit significand)
+\* "the nearest float": |m * 2^e - n/1000| <= half an ulp = 2^e / 2, i.e. |1000 m 2^e - n| <= 500 * 2^e
+NearestFloat(n, m, e) ==
+  IF e >= 0 THEN Leq(AbsDiff(Mul(MulSmall(m, 1000), Pow2(e)), n), MulSmall(Pow2(e), 500))
+  ELSE Leq(AbsDiff(MulSmall(m, 1000), Mul(n, Pow2(0 - e))), FromNat(500))
+
+C08V(r) ==
+  IF r.raised # "" THEN <<"fail", "well-formed-line-rejected">>
+  ELSE IF r.kind = "B" THEN
+    IF FromDigits(r.nd) = Zero THEN Skip("zero-tempo")
+    ELSE FirstFail(<<
+      <<"tick-preserved", r.tick = FromDigits(r.td)>>,
+      <<"tempo-is-nearest-float-to-n-over-1000", NearestFloat(FromDigits(r.nd), r.m, r.e)>>
+    >>)
+  ELSE IF r.kind = "TS" THEN
+    FirstFail(<<
+      <<"tick-preserved", r.tick = FromDigits(r.td)>>,
+      <<"upper-numeral", r.upper = FromDigits(r.ud)>>,
+      <<"lower-numeral-is-2^l-default-4", r.lower = (IF r.l = -1 THEN FromNat(4) ELSE Pow2(r.l))>>
+    >>)
+  ELSE IF r.kind = "A" THEN
+    FirstFail(<<
+      <<"tick-preserved", r.tick = FromDigits(r.td)>>,
+      <<"anchor-microseconds-exact", r.us = FromDigits(r.ad)>>
+    >>)
+  ELSE <<"fail", "unknown-record-kind">>
+
+(***************************** C19 *****************************************)
+\* one record per executed read-only operation: digests of the full projection of the chart and of
+\* its twin before and after the operation, the twin equality both ways, str/repr digests
+C19V(r) ==
+  IF r.kind = "assign" THEN
+    FirstFail(<< <<"attribute-assignment-rejected", r.rejected>>,
+                 <<"observation-unchanged", r.after = r.before>> >>)
+  ELSE FirstFail(<<
+    <<"observation-unchanged", r.after = r.before>>,
+    <<"twin-observation-unchanged", r.twin_after = r.twin_before>>,
+    <<"still-equal-to-twin", r.eq_twin /\ r.twin_eq>>,
+    <<"rendering-unchanged", r.render_after = r.render_before>>
+  >>)
+
 (***************************** dispatch ************************************)
 VerdictOf(p, r) ==
   CASE p = "C02" -> C02V(r)
     [] p = "C03" -> C03V(r)
     [] p = "C04" -> C04V(r)
     [] p = "C05" -> C05V(r)
+    [] p = "C08" -> C08V(r)
+    [] p = "C19" -> C19V(r)
     [] OTHER -> <<"fail", "unknown-property">>
 ==============================================================================
